@@ -133,13 +133,20 @@ def extra_cases(rs, tier):
                     D = rs.randint(-4, 5, size=(n, n)).astype(float)
                     c['D'] = (sym(D) if und else D).tolist(); c['Dkind'] = 'signed'
             if r == 'partial_und':
-                B = rand_graph(rs, n, float(rs.choice([.1, .3, .5])), False)
+                u = rs.rand()
+                if u < .4:           # symmetric mask
+                    B = rand_graph(rs, n, float(rs.choice([.1, .3, .5])), False); c['Bkind'] = 'symmetric'
+                elif u < .8:         # arbitrary (asymmetric) 0/1 mask
+                    B = rand_graph(rs, n, float(rs.choice([.1, .2, .4])), True); c['Bkind'] = 'asymmetric'
+                else:                # one-sided mask: only cells above the diagonal
+                    B = np.triu(rand_graph(rs, n, float(rs.choice([.2, .5])), True), 1); c['Bkind'] = 'one-sided'
                 if rs.rand() < .5:
                     # mask overlapping the network's own edges (B = A, or A's edges plus random cells), with all-distinct
                     # weights so that a connection re-created in a masked cell is visible in the end state
                     Ab = (np.array(A) != 0)
                     B = np.maximum(B, Ab * (rs.rand(n, n) < float(rs.choice([.5, 1.0]))))
-                    B = np.maximum(B, B.T)
+                    if c['Bkind'] == 'symmetric':
+                        B = np.maximum(B, B.T)
                     W = np.triu(np.arange(1, n * n + 1).reshape(n, n).astype(float), 1)
                     c['A'] = ((W + W.T) * Ab).tolist()
                 c['B'] = B.tolist(); c['itr'] = int(rs.randint(1, 8))
@@ -214,16 +221,26 @@ def main():
     ck.cov['rule'] = ('cases = (routine, matrix, itr/maxswap, seed[, D][, B]) for the four _connected routines, the four latticisers and '
                       'randomize_graph_partial_und: rewire_common.gen_cases (labelled 4-node graphs, random graphs n=5..10(14), spanning tree / '
                       'Hamiltonian cycle plus chords) plus a C11 stream of bridge-rich graphs (tree+<=2 chords, rings, rings+chords, barbells, two rings '
-                      'joined by a bridge; weights 1 or 1..9; default / random / linear / signed D, symmetric for the undirected latticisers; symmetric '
-                      'masks) and a malformed stream (asymmetric, disconnected) for the undirected _connected routines; non-trivial = distinct case in '
+                      'joined by a bridge; weights 1 or 1..9; default / random / linear / signed D, symmetric for the undirected latticisers; arbitrary 0/1 '
+                      'masks: symmetric, asymmetric, one-sided) and a malformed stream (asymmetric, disconnected) for the undirected _connected routines; non-trivial = distinct case in '
                       'which the real routine performed at least one rewiring, or a malformed input that was rejected')
-    ck.assumptions += ['inputs have an empty diagonal and two vertex-disjoint edges; D symmetric for latmio_und / latmio_und_connected; mask symmetric',
+    ck.assumptions += ['DOMAIN (restriction of the property quantifier): every input matrix has an EMPTY DIAGONAL (BCT convention: no self-connections); all '
+                       'connectivity theorems carry the hypothesis EmptyDiag and no generator produces self-loops - the routines neither clear nor reject a '
+                       'nonzero diagonal and their four-distinct-nodes test does not exclude a = b for a self-loop, so inputs with self-loops are outside the '
+                       'documented domain and outside what this check claims',
+                       'DOMAIN (restriction of the property quantifier): for latmio_und / latmio_und_connected the caller-supplied D is SYMMETRIC (a '
+                       'distance-to-diagonal matrix is symmetric); the undirected lattice-cost theorems carry the hypothesis Symm D and the generators produce '
+                       'symmetric D only for these two routines (arbitrary, also signed, integer D for latmio_dir / latmio_dir_connected)',
+                       'masks are arbitrary 0/1 matrices (symmetric, asymmetric, one-sided); no symmetry assumption on the mask',
+                       'inputs have two vertex-disjoint edges; integer weights',
                        'connectivity clause is evaluated on connected (undirected) / strongly connected (directed) inputs only',
-                       'the BCTParamError pre-checks (asymmetric / disconnected input) are tested on the real code only; the Lean driver does not model them',
+                       'rejection clause: Props/C11.precheck_rejects / precheck_ok are about Model/RewirePre.precheck (allclose -> equality on integer input, '
+                       'number_of_components = the C16 model); the malformed stream and every well-formed call of the two undirected _connected routines go through '
+                       'the driver Main/RewirePre and are compared with the real routines',
                        'calls that hit the watchdog (rejection loops that cannot terminate) are counted as timeouts, not violations']
-    ok = ck.lean_gate(['BctVerif.Props.C11'], extra_modules=['BctVerif.Model.Rewire'])
+    ok = ck.lean_gate(['BctVerif.Props.C11'], extra_modules=['BctVerif.Model.Rewire', 'BctVerif.Model.RewirePre'])
     if ck.tier == 'thorough' and ok:
-        ck.leanchecker(['BctVerif.Props.C11', 'BctVerif.Model.Rewire'])
+        ck.leanchecker(['BctVerif.Props.C11', 'BctVerif.Model.Rewire', 'BctVerif.Model.RewirePre'])
     if ck.replay:
         cases = [json.load(open(ck.replay))['case']['case']]
     else:
@@ -240,6 +257,8 @@ def main():
             ck.count('kind:' + c['kind'])
         if c.get('Dkind'):
             ck.count('D:' + c['Dkind'])
+        if c.get('Bkind'):
+            ck.count('mask:' + c['Bkind'])
         if c.get('malformed'):
             # rejection clause: asymmetric or disconnected input to the undirected _connected routines
             ck.count('malformed:' + c['malformed'])
@@ -249,6 +268,8 @@ def main():
                 ck.violation(rt, 'rejects-malformed', {'case': c, 'status': r['status'], 'exception': r.get('exc'), 'output': r.get('R')}, cond_of(c))
             elif rej:
                 ck.count('rejected:' + c['malformed'])
+            if r['status'] != 'timeout' and rt in UND_CONN:
+                lines.append(rc.lean_line(c, r)); idx.append(n_)     # the pre-check model must reject it too
             continue
         moved = r['status'] == 'ok' and ((r.get('eff') or 0) > 0 or r.get('R') != c['A'])
         ck.case(sample={'routine': rt, 'A': c['A'], 'itr': c.get('itr'), 'seed': c['seed'], 'eff': r.get('eff'), 'kind': c.get('kind'),
@@ -273,19 +294,29 @@ def main():
             else:
                 ck.violation(rt, pred, {'case': c, 'output': r.get('R'), 'Rrp': r.get('Rrp'), 'eff': r.get('eff'), 'info': info}, cond_of(c))
         lines.append(rc.lean_line(c, r)); idx.append(n_)
-    # correspondence: the Lean model (about which Props/C11.lean proves the clauses) replays the recorded draws
+    # correspondence: the Lean model (about which Props/C11.lean proves the clauses) replays the recorded draws.
+    # The two undirected _connected routines (well-formed and malformed input) go through Main/RewirePre
+    # (pre-check, then the same Rewire.step); everything else through Main/Rewire.
     if ok:
         try:
-            outs = run_driver('Rewire', lines)
+            pre = [k for k, n_ in enumerate(idx) if cases[n_]['routine'] in UND_CONN]
+            oth = [k for k, n_ in enumerate(idx) if cases[n_]['routine'] not in UND_CONN]
+            outs = [None] * len(lines)
+            for drv, ks in (('RewirePre', pre), ('Rewire', oth)):
+                for k, o in zip(ks, run_driver(drv, [lines[k] for k in ks])):
+                    outs[k] = o
             nd = 0
             for n_, o in zip(idx, outs):
                 exp = rc.expected_line(cases[n_], results[n_])
                 if o != exp:
                     nd += 1
                     if nd <= 5:
-                        ck.corr_break('Rewire model vs bct.' + cases[n_]['routine'], {'case': cases[n_], 'model': o[:400], 'impl': exp[:400]})
+                        ck.corr_break('Rewire model vs bct.' + cases[n_]['routine'], {'case': cases[n_], 'model': (o or '')[:400], 'impl': exp[:400]})
+                elif cases[n_].get('malformed'):
+                    ck.count('precheck_model_rejects_too')
             ck.cov['traces_validated_against_impl'] = len(outs) - nd
-            ck.count('correspondence_cases', len(outs)); ck.count('correspondence_disagreements', nd)
+            ck.count('correspondence_cases', len(outs)); ck.count('correspondence_cases_via_RewirePre', len(pre))
+            ck.count('correspondence_disagreements', nd)
         except DriverError as e:
             ck.corr_break('Rewire driver', str(e))
     ck.finish()
